@@ -459,6 +459,9 @@ func (x *Extractor) canonF(fr *frame, e ast.Expr, depth int) (string, bool) {
 		if !ok {
 			return "", false
 		}
+		if v.Op == token.AND {
+			return s, true // &x names the same object
+		}
 		return v.Op.String() + s, true
 	case *ast.IndexExpr:
 		b, ok1 := x.canonF(fr, v.X, depth)
